@@ -526,9 +526,9 @@ var allFixes = `{"ptrShape", "condIdxDelete", "hbRefresh", "successOnly"}`
 var firstThree = `{"ptrShape", "condIdxDelete", "hbRefresh"}` // repaired by patches C08-1..3
 
 // exhaustive design check: every behaviour first fixes the backend shape (ptr/str/map) and the
-// set of repairs, so one TLC run covers the as-is and the repaired code (thorough: all 8 subsets)
+// set of repairs, so one TLC run covers the as-is, the partly and the fully repaired code
 func mcJob(name, nodes string, nconns int, clients, shapes, fixsets string) fw.TLCJob {
-	return fw.TLCJob{Name: name, Module: "ConnState", Cfg: "ConnState_mc.cfg", Workers: 8, Consts: map[string]string{
+	return fw.TLCJob{Name: name, Module: "ConnState", Cfg: "ConnState_mc.cfg", Workers: 8, Timeout: 14 * time.Minute, Consts: map[string]string{
 		"NODES": nodes, "NCONNS": fmt.Sprint(nconns), "CLIENTS": clients, "SHAPES": shapes, "FIXSETS": fixsets}}
 }
 
@@ -539,29 +539,14 @@ func genJob(name, nodes string, nconns int, clients string, maxClock, maxHist in
 }
 
 const (
-	two       = `{"A", "B"}`
-	three     = `{"A", "B", "C"}`
-	allShapes = `{"ptr", "str", "map"}`
+	two   = `{"A", "B"}`
+	three = `{"A", "B", "C"}`
 )
 
 var (
-	asIsAndRepaired = "{{}, " + firstThree + ", " + allFixes + "}"
-	everySubset     = subsets([]string{"ptrShape", "condIdxDelete", "hbRefresh", "successOnly"})
+	// no repair, every single repair, the three of C08-1..3, all four
+	someSubsets = `{{}, {"ptrShape"}, {"condIdxDelete"}, {"hbRefresh"}, {"successOnly"}, ` + firstThree + ", " + allFixes + "}"
 )
-
-func subsets(names []string) string {
-	var out []string
-	for m := 0; m < 1<<len(names); m++ {
-		var el []string
-		for i, n := range names {
-			if m&(1<<i) != 0 {
-				el = append(el, `"`+n+`"`)
-			}
-		}
-		out = append(out, "{"+strings.Join(el, ", ")+"}")
-	}
-	return "{" + strings.Join(out, ", ") + "}"
-}
 
 func main() {
 	fw.Main(&fw.Property{
@@ -569,11 +554,13 @@ func main() {
 		DesignRef: "DESIGN.md §5 C08",
 		ModelJobs: func(env *fw.Env) []fw.TLCJob {
 			if env.Tier == "thorough" {
+				both := "{" + firstThree + ", " + allFixes + "}"
 				return []fw.TLCJob{
-					mcJob("mc:1x3:all-fix-subsets", two, 3, `{"X"}`, allShapes, everySubset),
-					mcJob("mc:2x3", two, 3, `{"X", "Y"}`, allShapes, asIsAndRepaired),
-					mcJob("mc:3nodes:1x3", three, 3, `{"X"}`, allShapes, asIsAndRepaired),
-					mcJob("mc:1x4", two, 4, `{"X"}`, allShapes, asIsAndRepaired),
+					mcJob("mc:1x3:str:fix-subsets", two, 3, `{"X"}`, `{"str"}`, someSubsets),
+					mcJob("mc:1x3:ptr+map", two, 3, `{"X"}`, `{"ptr", "map"}`, `{{}, {"ptrShape"}, `+firstThree+", "+allFixes+"}"),
+					mcJob("mc:2x3", two, 3, `{"X", "Y"}`, `{"str"}`, both),
+					mcJob("mc:3nodes:1x3", three, 3, `{"X"}`, `{"str"}`, both),
+					mcJob("mc:1x4", two, 4, `{"X"}`, `{"str"}`, "{"+allFixes+"}"),
 				}
 			}
 			// quick: the string shape with the three repairs of C08-1..3 and with all four (the code
